@@ -23,6 +23,8 @@ T_Img ==
     /\ ChkP(E.accepted = 1 => E.fin_started = 1, {"C15"}, "image-from-before-finalize-accepted")
     /\ ChkP(E.accepted = 1 => E.listing_same = 1, {"C15"}, "accepted-image-lists-other-content-than-the-completed-file")
     /\ ChkP(E.accepted = 1 => \A i \in 1..Len(E.ops) : E.ops[i][2] \in {"err", "same"}, {"C15"}, "accepted-image-returns-data-that-differs-from-the-completed-file")
+    \* the static XML extraction needs no accepted reader: on EVERY image it fails or returns the XML of a finalized version
+    /\ ("rawxml" \in DOMAIN E) => ChkP(E.rawxml \in {"err", "same"}, {"C15"}, "raw-xml-of-an-incomplete-image-is-neither-an-error-nor-the-xml-of-a-finalized-version")
     /\ nimg' = nimg + 1 /\ nacc' = nacc + (IF E.accepted = 1 THEN 1 ELSE 0) /\ UNCHANGED hasfin
 \* ---- binding of the design-level model CrashSpec to the recorded write sequence --------------------
 \* the device of CrashSpec after the first k recorded writes
